@@ -154,6 +154,8 @@ static void event_end(long k, char cls, const char *call, const char *p1, const 
 static long open_now = 0, open_max = 0;
 static int fake_nofile = 0;       /* FCSHIM_FAKE_NOFILE: what getrlimit(RLIMIT_NOFILE) reports to the subject */
 static long read_delay_us = 0;    /* FCSHIM_READ_DELAY_US: every read of a tracked file takes at least this long */
+static int fake_nofile_hard = 0;  /* FCSHIM_FAKE_NOFILE_HARD: reported hard limit (default: same as the soft one) */
+static int setrlimit_errno = 0;   /* FCSHIM_SETRLIMIT_ERRNO: setrlimit(RLIMIT_NOFILE) fails with this errno (seccomp, container) */
 
 static void count_open(int delta) {
     long n = __atomic_add_fetch(&open_now, delta, __ATOMIC_SEQ_CST);
@@ -212,6 +214,8 @@ __attribute__((constructor)) static void init(void) {
     emulate_clone = getenv("FCSHIM_EMULATE_CLONE") != NULL;
     if (getenv("FCSHIM_FAKE_NOFILE")) fake_nofile = atoi(getenv("FCSHIM_FAKE_NOFILE"));
     if (getenv("FCSHIM_READ_DELAY_US")) read_delay_us = atol(getenv("FCSHIM_READ_DELAY_US"));
+    if (getenv("FCSHIM_FAKE_NOFILE_HARD")) fake_nofile_hard = atoi(getenv("FCSHIM_FAKE_NOFILE_HARD"));
+    if (getenv("FCSHIM_SETRLIMIT_ERRNO")) setrlimit_errno = atoi(getenv("FCSHIM_SETRLIMIT_ERRNO"));
     const char *lg = getenv("FCSHIM_LOG");
     if (lg) log_fd = (int)syscall(SYS_openat, AT_FDCWD, lg, O_WRONLY | O_CREAT | O_APPEND | O_CLOEXEC, 0644);
     active = 1;
@@ -725,25 +729,33 @@ int ioctl(int fd, unsigned long req, ...) {
 int getrlimit(__rlimit_resource_t res, struct rlimit *rl) {
     REAL(int, getrlimit, __rlimit_resource_t, struct rlimit *);
     int r = real_getrlimit(res, rl);
-    if (active && fake_nofile > 0 && res == RLIMIT_NOFILE && r == 0) rl->rlim_cur = rl->rlim_max = (rlim_t)fake_nofile;
+    if (active && fake_nofile > 0 && res == RLIMIT_NOFILE && r == 0) {
+        rl->rlim_cur = (rlim_t)fake_nofile;
+        rl->rlim_max = (rlim_t)(fake_nofile_hard > 0 ? fake_nofile_hard : fake_nofile);
+    }
     return r;
 }
 
 int getrlimit64(__rlimit_resource_t res, struct rlimit64 *rl) {
     REAL(int, getrlimit64, __rlimit_resource_t, struct rlimit64 *);
     int r = real_getrlimit64(res, rl);
-    if (active && fake_nofile > 0 && res == RLIMIT_NOFILE && r == 0) rl->rlim_cur = rl->rlim_max = (rlim64_t)fake_nofile;
+    if (active && fake_nofile > 0 && res == RLIMIT_NOFILE && r == 0) {
+        rl->rlim_cur = (rlim64_t)fake_nofile;
+        rl->rlim_max = (rlim64_t)(fake_nofile_hard > 0 ? fake_nofile_hard : fake_nofile);
+    }
     return r;
 }
 
 int setrlimit(__rlimit_resource_t res, const struct rlimit *rl) {
     REAL(int, setrlimit, __rlimit_resource_t, const struct rlimit *);
+    if (active && fake_nofile > 0 && res == RLIMIT_NOFILE && setrlimit_errno) { errno = setrlimit_errno; return -1; }
     if (active && fake_nofile > 0 && res == RLIMIT_NOFILE) return 0;
     return real_setrlimit(res, rl);
 }
 
 int setrlimit64(__rlimit_resource_t res, const struct rlimit64 *rl) {
     REAL(int, setrlimit64, __rlimit_resource_t, const struct rlimit64 *);
+    if (active && fake_nofile > 0 && res == RLIMIT_NOFILE && setrlimit_errno) { errno = setrlimit_errno; return -1; }
     if (active && fake_nofile > 0 && res == RLIMIT_NOFILE) return 0;
     return real_setrlimit64(res, rl);
 }
